@@ -6,27 +6,27 @@ ROOT = os.path.dirname(os.path.dirname(os.path.abspath(__file__)))
 
 CLAIMED = {
     "C06": dict(
-        text="Seeded search over session histories with injected failures at every pipeline stage (parse, unknown/unavailable/broken module, name clash, type error, run-time error, fault at an arbitrary VM instruction). After every input the faulted session is compared with a twin that never saw the failing inputs and with a snapshot taken before the input (names, values, types, signatures, unit definitions, re-imports, fresh definitions, results of all later inputs). Evidence of absence on the histories explored, not a proof.",
+        text="Seeded search over session histories with injected failures at every pipeline stage (parse, unknown/unavailable/broken module, name clash, type error, run-time error, fault at an arbitrary VM instruction). After every input the faulted session is compared with a twin that never saw the failing inputs and with a snapshot taken before the input (names, values, types, signatures, unit definitions, re-imports, fresh definitions, results of all later inputs). Evidence of absence on the histories explored, not a proof. Sub-batches: both sessions built from scratch; the CLI's currency-on-demand loading switched on (its one by-design exception modelled narrowly); replay of the history in a fresh process whose failing inputs are evaluated by fork()ed copies (process-wide state).",
         note="Trusted: the simulator (generator, SimImporter, probe battery), Context::clone being faithful (checked separately by C07's fork mode), numbat's Display of values/errors as the observation channel. Currency on-demand loading is exercised in a sub-batch with its one by-design exception modelled narrowly; process-wide state is covered by a fresh-process reference (fork) in a sub-batch.",
         technique="deterministic simulation: seeded histories + fault injection (VM-instruction fault hook, faulty module importer), twin-session refinement oracle, from-scratch and fresh-process (fork) references",
         ref="§5 C06"),
     "C07": dict(
-        text="Seeded search over successful histories executed in five modes (one input per line, all joined, chunked at seeded points, scripted REPL with failing traffic and read-only commands followed by save and replay of the saved file, fork of the session with independent continuations) with per-element and final observational comparison; save is additionally run against fault-injecting writers and real unwritable destinations with a byte-exact model. Thorough tier cross-checks the REPL glue against the real binary.",
+        text="Seeded search over successful histories executed in five modes (one input per line, all joined, chunked at seeded points, scripted REPL with failing traffic and read-only commands followed by save and replay of the saved file, fork of the session with independent continuations) with per-element and final observational comparison; save is additionally run against fault-injecting writers and real unwritable destinations with a byte-exact model. Thorough tier cross-checks the REPL glue against the real binary. Fork runs take the pair under test and its two references from three independently built base contexts; each side re-defines the sibling's names, defines identifiers derived from the sibling's units and echoes the sibling's last line. A crash of the real interactive binary is a violation.",
         note="Trusted: the simulator, the ~20-line copy of the REPL loop glue (cross-validated against the real binary in the thorough tier), Display output as observation channel.",
         technique="deterministic simulation: seeded histories under seeded split/clone/save schedules with I/O fault injection on the save writer; cross-mode refinement + byte-exact save model",
         ref="§5 C07"),
     "C17": dict(
-        text="Imports as commutative idempotent deliveries: seeded subsets of the real standard-library modules delivered in seeded orders with duplication and batching (separate inputs, one input, nested through synthetic modules); every delivery must succeed, duplicates must cause zero importer calls and no state change, the final observable digest (names, types, values, unit and dimension definitions) must equal that of the canonical delivery. Thorough tier enumerates all ordered pairs exhaustively.",
+        text="Imports as commutative idempotent deliveries: seeded subsets of the real standard-library modules delivered in seeded orders with duplication and batching (separate inputs, one input, nested through synthetic modules); every delivery must succeed, duplicates must cause zero importer calls and no state change, the final observable digest (names, types, values, unit and dimension definitions) must equal that of the canonical delivery. Thorough tier enumerates all ordered pairs exhaustively. A by-construction import-effect oracle (definitions found in a delivered module's source text must be listed), deliveries through numbat's own importers (embedded, file system, two-root file system with overrides, chained user directory) and a module-list check complete it.",
         note="Trusted: the simulator and digest; exchange rates pinned by numbat's own test stub; units::currencies evaluated with rate 1.0.",
         technique="deterministic simulation: seeded delivery schedules (reorder, duplicate, batch) of module imports through an instrumented importer and through numbat's own importers; convergence oracle; exhaustive ordered pairs in thorough",
         ref="§5 C17"),
     "C18": dict(
-        text="Seeded search over operation histories on up to six simultaneously live list handles (construction, clone, drop, push_front/back, tail, head, ==, Debug) with a Vec reference model compared on all handles after every operation, plus panicking element clones as a fault, plus the same representation driven through the interpreter on sessions cloned mid-way. The drop/clone schedule decides which code path (in place vs copy) each operation takes.",
+        text="Seeded search over operation histories on up to six simultaneously live list handles (construction, clone, drop, push_front/back, tail, head, ==, Debug) with a Vec reference model compared on all handles after every operation, plus panicking element clones as a fault, plus the same representation driven through the interpreter on sessions cloned mid-way. The drop/clone schedule decides which code path (in place vs copy) each operation takes. Element equality is deliberately coarser than identity (like 1 m == 100 cm) with twin pushes; the interpreter-level sub-batch has unit, string and nested-list modes and renders expected scalars through numbat itself.",
         note="Trusted: the Vec model and the harness. Cross-thread sub-operation interleavings are argued unobservable (all mutators take &mut self, no Weak) and not simulated.",
         technique="deterministic simulation: seeded schedules of operations, clones and drops over shared-storage handles, fault injection in element Clone, reference-model oracle",
         ref="§5 C18"),
     "C22": dict(
-        text="The real numbat binary run as a black box in a sandboxed environment on generated scripts (all-succeeding or with one fault at a seeded position and stage) delivered as file, as -e arguments or split, plus environment faults (missing/dir/non-UTF-8 file, corrupt config, failing init.nbt); exit status, stdout markers, stderr and file/-e equivalence are checked against a by-construction model.",
+        text="The real numbat binary run as a black box in a sandboxed environment on generated scripts (all-succeeding or with one fault at a seeded position and stage) delivered as file, as -e arguments or split, plus environment faults (missing/dir/non-UTF-8 file, corrupt config, failing init.nbt); exit status, stdout markers, stderr and file/-e equivalence are checked against a by-construction model. Further oracles: a Rust panic of the tool (exit 101) and a failing run whose stderr is nothing but the tail every failing run prints (learnt from the binary) are violations; user modules in the configuration directory (healthy or broken), very long printed lines and more than a thousand prints in one input are part of the workload.",
         note="Trusted: the by-construction outcome model and the sandbox. Output-side faults (closed/full stdout) not asserted. Weakest fit for the technique: there is no schedule, only fault position x stage x channel x environment.",
         technique="deterministic simulation at process level: seeded fault position x stage x delivery channel x environment faults against the real binary; by-construction outcome model",
         ref="§5 C22"),
